@@ -28,6 +28,21 @@ class C05Spec(ModelSpec):
         self.ops = ops
 
 
+class C05ListSpec(ModelSpec):
+    """ORDER of the lines of one shared reference list: five pids related as tails / heads of one another ('1' is a tail of
+    'v1' and of 'doc-v1', 'v1' a tail of 'doc-v1', '1' a head of '1v', 'readme' unrelated) are tagged to and deleted from one cid
+    in every order - the closure holds every ordered subset of the five as list content (326 states)."""
+    prop = "C05"
+    pids = ("1", "v1", "doc-v1", "readme", "1v")
+    formats = ()
+    init_ops = (("store_nopid", "A"),)
+
+    def __init__(self, tier):
+        super().__init__()
+        self.key_dirs = False
+        self.ops = [op for pid in self.pids for op in (("tag", pid, "A"), ("delete", pid))]
+
+
 def aligned_lists(rep):
     """Reference lists whose lines end exactly on multiples of the I/O buffer sizes (1024-character lines: 4 lines =
     4096, 8 lines = 8192 characters), before and after the alignment is shifted by a short pid: every bound pid
@@ -341,6 +356,9 @@ def main(tier):
     aligned_lists(rep)
     alignment_sweep(rep, tier)
     boundary_windows(rep, tier)
+    from ._s import run_spec
+    lres = run_spec(rep, C05ListSpec(tier), "list-order", time_cap=120 if tier == "quick" else 3000)
+    list_part = dict(rep.coverage.get("parts", {}).get("list-order", {}))
     spec = C05Spec(tier)
     res = engine_s.explore(spec, time_cap=120 if tier == "quick" else 3000, seed=common.SEED)
     for sig, det in res.violations:
@@ -354,6 +372,9 @@ def main(tier):
         "outcomes": {"%s->%s" % k: v for k, v in sorted(res.outcomes.items())},
         "dedup_key": "exact tree incl. empty directories" if spec.key_dirs else "tree without empty directories",
     })
+    rep.coverage.pop("parts", None)
+    rep.coverage["list_order_closure"] = {k: list_part.get(k) for k in ("states", "transitions", "max_depth", "closure_reached", "alphabet")}
+    rep.coverage["exhaustive"] = bool(res.closed and lres.closed)
     rep.assumptions += ["every transition runs the real method on a fresh FileHashStore over the materialised tree",
                         "alphabet: pids p/p1/1p, contents A/B, cids cA/cB/never-stored"]
     return rep.finish(res.samples)
@@ -382,4 +403,6 @@ def replay(rep):
         for sig, det in sub.found:
             print("VIOLATION:", sig.get("what"), det)
         return 1 if sub.found else 0
+    if rep.get("signature", {}).get("part") == "list-order":
+        return replay_history(C05ListSpec("thorough"), rep)
     return replay_history(C05Spec("thorough"), rep)
